@@ -261,8 +261,11 @@ def typhon_dir_period(template):
         return dt.timedelta(days=1)
     if "month" in names:
         return dt.timedelta(days=31)
-    if names & {"year", "year2"} or template["dirs"]:
-        # (directories without temporal placeholder count as a year)
+    if names & {"year", "year2"}:
+        return dt.timedelta(days=366)
+    if any(tok[0] != "lit" for chunk in template["dirs"] for tok in chunk):
+        # sub-directories with placeholders but without a temporal one count
+        # as a year (leading literal directories belong to the base directory)
         return dt.timedelta(days=366)
     return None
 
